@@ -94,7 +94,7 @@ impl Check for C15 {
     fn total_cases(&self, tier: Tier) -> u64 {
         match tier {
             Tier::Quick => 80_000,
-            Tier::Thorough => 1_500_000,
+            Tier::Thorough => 5_000_000,
         }
     }
     fn strategy(&self, _tier: Tier) -> BoxedStrategy<CCase> {
